@@ -31,6 +31,7 @@ class GoZero (α : Type) where
 
 instance : GoZero Int := ⟨0⟩
 instance : GoZero Bool := ⟨false⟩
+instance : GoZero Unit := ⟨()⟩
 instance : GoZero GoString := ⟨[]⟩
 instance {α} : GoZero (Option α) := ⟨none⟩
 instance {α} : GoZero (List α) := ⟨[]⟩
@@ -79,6 +80,18 @@ def goConv (x : Int) : Int := x
 
 /-- `for i, x := range l`: the elements with their indices -/
 def goEnum {α : Type} (l : List α) : List (Int × α) := l.zipIdx.map fun (a, i) => ((i : Int), a)
+
+/-- `for i := lo; i < hi; i++`: the values of the counter -/
+def goUpTo (lo hi : Int) : List Int := (List.range (hi - lo).toNat).map fun (k : Nat) => lo + (k : Int)
+
+/-- `*rand.Rand`: the numbers its successive `Intn` calls return (the caller of a theorem states
+    what it assumes about them, e.g. that each is below the bound it was drawn for) -/
+structure GoRand where
+  draws : List Int := []
+  deriving Repr, DecidableEq
+
+/-- `r.Intn(n)`: the next number and the source after the draw -/
+def goIntn (r : GoRand) (_n : Int) : Int × GoRand := (r.draws.headD 0, ⟨r.draws.tail⟩)
 
 /-- outcome of one iteration of a translated `for … range` body -/
 inductive LoopStep (ρ σ : Type) where
@@ -130,5 +143,10 @@ structure Ext where
   reMatchRaw : GoRe → GoString → Bool := fun _ _ => true
   /-- `percentOf(total, value float64) float64`, observed through `int(...)` -/
   percentOf : GoFloat → GoFloat → GoFloat := fun _ _ => 100
+  /-- `rand.New(rand.NewSource(time.Now().Unix()))` -/
+  randNew : GoRand := {}
+  /-- a method of the translated package that is outside the subset (reflection, file I/O) and
+      returns a list of strings, by its name -/
+  strList : GoString → List GoString := fun _ => []
 
 end Dtail.Go
